@@ -19,6 +19,10 @@ package main
 // reported as a violation of the property itself (kind "spec") with the generated world as the failing input.
 // A walk that delivers nothing but does not come back either is stopped by a generous deadline and reported
 // only when a second, longer attempt does not come back either.
+//
+// A second stream of worlds (c19err.go) contains a directory the walker CANNOT READ (mode 000 with an unprivileged
+// walker, removed at the moment it is listed, path beyond PATH_MAX): expected is the spec's listing of the visible
+// tree (op 1908, spec/WalkErrSpec.v) and a walk that is not given up (readFiles returns true; model op 1907).
 
 import (
 	"context"
@@ -42,6 +46,9 @@ type c19Node struct {
 	N string     `json:"n"`
 	C []*c19Node `json:"c,omitempty"` // K=1: content
 	T string     `json:"t,omitempty"` // K=2: link text; "$W" stands for the world directory
+	// K=1: a directory the walker cannot read (c19err.go): 1 = mode 000 (takes effect when the walker runs without
+	// privileges), 2 = removed at the moment the walker lists it (in-process route, needs `dir`)
+	X int `json:"x,omitempty"`
 }
 
 type c19Run struct {
@@ -102,12 +109,18 @@ func c19Resolve(world *c19Node, from []string, target string, depth int) ([]stri
 			if len(cur) == 0 {
 				return nil, false
 			}
+			if d := c19NodeAt(world, cur); d != nil && d.X == 1 && c19LockEff {
+				return nil, false // ".." is looked up IN the directory: needs search permission
+			}
 			cur = cur[:len(cur)-1]
 			continue
 		}
 		dir := c19NodeAt(world, cur)
 		if dir == nil || dir.K != 1 {
 			return nil, false
+		}
+		if dir.X == 1 && c19LockEff {
+			return nil, false // mode 000: no search permission either
 		}
 		ch := c19Lookup(dir, comp)
 		if ch == nil {
@@ -131,26 +144,50 @@ type c19Expander struct {
 	world *c19Node
 	nodes int
 	stats map[string]int
+	// flag != nil: entries carry a fourth element, 1 = the walker can read this directory (the link's target), 0 = it
+	// cannot (wire format `uentry` of coq/wire/W_Walk.v); canon = the directory, joined = the path fastwalk opens
+	flag func(canon []string, joined string) bool
+}
+
+// fastwalk joinPaths (unix)
+func c19Join(dir, base string) string {
+	if len(dir) != 0 && dir[len(dir)-1] == '/' {
+		return dir + base
+	}
+	return dir + "/" + base
+}
+
+func (x *c19Expander) mk(k int, name string, sub Val, canon []string, joined string) Val {
+	if x.flag == nil {
+		return L(I(k), Bytes(name), sub)
+	}
+	rd := 1
+	if canon != nil && !x.flag(canon, joined) {
+		rd = 0
+		x.stats["unreadable"]++
+	}
+	return L(I(k), Bytes(name), sub, I(rd))
 }
 
 func c19ID(canon []string) string { return "/" + strings.Join(canon, "/") }
 
 // entries of directory `dir` (canonical location canon) as the wire value of coq/wire/W_Walk.v;
 // chain: identities of the textual ancestors (for fastwalk's loop protection).
-func (x *c19Expander) expand(dir *c19Node, canon []string, chain []string) Val {
+func (x *c19Expander) expand(dir *c19Node, canon []string, chain []string, at string) Val {
 	out := []Val{}
 	for _, ch := range dir.C {
 		x.nodes++
 		if x.nodes > 4000 {
 			break
 		}
+		joined := c19Join(at, ch.N)
 		switch ch.K {
 		case 0:
-			out = append(out, L(I(0), Bytes(ch.N), L()))
+			out = append(out, x.mk(0, ch.N, L(), nil, ""))
 			x.stats["file"]++
 		case 1:
 			sub := append(append([]string{}, canon...), ch.N)
-			out = append(out, L(I(1), Bytes(ch.N), x.expand(ch, sub, append(append([]string{}, chain...), c19ID(sub)))))
+			out = append(out, x.mk(1, ch.N, x.expand(ch, sub, append(append([]string{}, chain...), c19ID(sub)), joined), sub, joined))
 			x.stats["dir"]++
 		case 2:
 			res, ok := c19Resolve(x.world, canon, ch.T, 0)
@@ -159,7 +196,7 @@ func (x *c19Expander) expand(dir *c19Node, canon []string, chain []string) Val {
 				tn = c19NodeAt(x.world, res)
 			}
 			if tn == nil || tn.K != 1 {
-				out = append(out, L(I(2), Bytes(ch.N), L()))
+				out = append(out, x.mk(2, ch.N, L(), nil, ""))
 				if tn == nil {
 					x.stats["symlink_dangling"]++
 				} else {
@@ -175,10 +212,10 @@ func (x *c19Expander) expand(dir *c19Node, canon []string, chain []string) Val {
 				}
 			}
 			if loop {
-				out = append(out, L(I(3), Bytes(ch.N), L()))
+				out = append(out, x.mk(3, ch.N, L(), nil, "")) // never entered, so never read
 				x.stats["symlink_dir_loop"]++
 			} else {
-				out = append(out, L(I(3), Bytes(ch.N), x.expand(tn, res, append(append([]string{}, chain...), id))))
+				out = append(out, x.mk(3, ch.N, x.expand(tn, res, append(append([]string{}, chain...), id), joined), res, joined))
 				x.stats["symlink_dir"]++
 			}
 		}
@@ -240,9 +277,12 @@ func c19BuildGraph(world *c19Node) *c19Graph {
 
 // the wire value [[root, entries]...] for the case and, per root, the argument of op 1906 (fuel, directories on
 // the way, root directory, graph); ok=false when a root does not name a directory
-func c19RootsG(cs c19Case) (Val, map[string]int, []Val, bool) {
+func c19RootsG(cs c19Case) (Val, map[string]int, []Val, bool) { return c19RootsF(cs, "", nil) }
+
+// flag != nil: the trees carry readability flags, the roots are [root, entries, rd]; w = the world directory on disk
+func c19RootsF(cs c19Case, w string, flag func(canon []string, joined string) bool) (Val, map[string]int, []Val, bool) {
 	world := &c19Node{K: 1, C: cs.World}
-	x := &c19Expander{world: world, stats: map[string]int{}}
+	x := &c19Expander{world: world, stats: map[string]int{}, flag: flag}
 	graph := c19BuildGraph(world)
 	unfoldArgs := []Val{}
 	cwd := []string{}
@@ -290,8 +330,13 @@ func c19RootsG(cs c19Case) (Val, map[string]int, []Val, bool) {
 				q = filepath.Dir(q)
 			}
 		}
-		// the root string as the implementation receives it
-		roots = append(roots, L(Bytes(r), x.expand(n, res, chain)))
+		// the root string as the implementation receives it; fastwalk opens cleanRootPath(root) and what it joins to it
+		at := strings.TrimRight(strings.Replace(r, "$W", w, 1), "/")
+		if flag == nil {
+			roots = append(roots, L(Bytes(r), x.expand(n, res, chain, at)))
+		} else {
+			roots = append(roots, L(Bytes(r), x.expand(n, res, chain, at), B(flag(res, at))))
+		}
 		cids := []int{}
 		for _, id := range chain {
 			n, known := graph.ids[id]
@@ -323,6 +368,13 @@ func c19Materialise(w string, nodes []*c19Node, at string) error {
 				return err
 			}
 		case 1:
+			if len(p) > 3000 {
+				// beyond PATH_MAX no absolute path works: go on relative to the directory itself
+				if err := c19MaterialiseDeep(w, n, at); err != nil {
+					return err
+				}
+				continue
+			}
 			if err := os.Mkdir(p, 0755); err != nil {
 				return err
 			}
@@ -368,7 +420,7 @@ var c19Deadlines = []time.Duration{5 * time.Second, 90 * time.Second}
 const c19UnfoldFuel = 64 // depth bound of the unfolding (the result does not depend on it: unfold_fuel_irrelevant)
 var c19RunawaySeen = 0 // runs of this process in which the walker had to be stopped
 
-func c19Hook(cs c19Case, w string, run c19Run, limit int, deadline time.Duration) (items []string, st c19Stop) {
+func c19Hook(cs c19Case, w string, run c19Run, limit int, deadline time.Duration, hx c19HookX) (items []string, st c19Stop) {
 	old, _ := os.Getwd()
 	if err := os.Chdir(filepath.Join(w, cs.Cwd)); err != nil {
 		return nil, c19Stop{Msg: "chdir: " + err.Error()}
@@ -378,6 +430,12 @@ func c19Hook(cs c19Case, w string, run c19Run, limit int, deadline time.Duration
 	items = []string{}
 	over := false
 	var wk *fzf.VerifWalk
+	// a directory that vanishes at the moment the walker lists it (c19err.go): recognised by identity, not by name
+	var vanishFi os.FileInfo
+	if hx.vanish != "" {
+		vanishFi, _ = os.Stat(hx.vanish)
+		defer hx.restore()
+	}
 	wk = fzf.VerifNewWalk(func(s string) {
 		mu.Lock()
 		if len(items) < limit {
@@ -386,8 +444,21 @@ func c19Hook(cs c19Case, w string, run c19Run, limit int, deadline time.Duration
 			over = true
 			go wk.Stop()
 		}
+		if vanishFi != nil && strings.HasSuffix(s, "/") {
+			if fi, err := os.Stat(s); err == nil && os.SameFile(fi, vanishFi) {
+				os.RemoveAll(hx.vanish)
+				vanishFi = nil
+			}
+		}
 		mu.Unlock()
 	})
+	// a walker without privileges (mode-000 directories): the effective uid of this process for the time of the walk
+	if hx.drop {
+		if err := syscall.Seteuid(c19Nobody); err != nil {
+			return nil, c19Stop{Msg: "seteuid: " + err.Error()}
+		}
+		defer syscall.Seteuid(0)
+	}
 	type result struct {
 		ok  bool
 		pan string
@@ -483,12 +554,12 @@ func c19WalkerArg(o [4]bool) string {
 }
 
 // maxBytes bounds the output (0: 64 MiB); over=true when the process wrote more and was cut off
-func c19Proc(c *Ctx, pty *c19Pty, cs c19Case, w string, run c19Run, maxBytes int) (items []string, msg string, over bool) {
-	items, msg, over = c19ProcRun(c, pty, cs, w, run, maxBytes)
+func c19Proc(c *Ctx, pty *c19Pty, cs c19Case, w string, run c19Run, maxBytes int, drop bool) (items []string, msg string, over bool) {
+	items, msg, over = c19ProcRun(c, pty, cs, w, run, maxBytes, drop)
 	return
 }
 
-func c19ProcRun(c *Ctx, pty *c19Pty, cs c19Case, w string, run c19Run, maxBytes int) ([]string, string, bool) {
+func c19ProcRun(c *Ctx, pty *c19Pty, cs c19Case, w string, run c19Run, maxBytes int, drop bool) ([]string, string, bool) {
 	if maxBytes <= 0 {
 		maxBytes = 64 << 20
 	}
@@ -509,6 +580,9 @@ func c19ProcRun(c *Ctx, pty *c19Pty, cs c19Case, w string, run c19Run, maxBytes 
 	cmd := exec.CommandContext(ctx, c.Fzf, args...)
 	cmd.Dir = filepath.Join(w, cs.Cwd)
 	cmd.Stdin = slave
+	if drop { // a walker without privileges (mode-000 directories)
+		cmd.SysProcAttr = &syscall.SysProcAttr{Credential: &syscall.Credential{Uid: c19Nobody, Gid: c19Nobody}}
+	}
 	var errb strings.Builder
 	out := &c19CapWriter{max: maxBytes}
 	cmd.Stdout = out
@@ -701,28 +775,95 @@ func c19Check(c *Ctx, pty *c19Pty, cs c19Case, seq int) {
 	}
 	if err := c19Materialise(w, cs.World, w); err != nil {
 		rep.Count("materialise_failed")
+		c19Unlock(cs.World, w)
 		os.RemoveAll(w)
 		return
 	}
+	c19Lock(cs.World, w)
 	defer os.RemoveAll(w)
+	defer c19Unlock(cs.World, w)
 	wire := c19WireRoots(rootsV, cs, w)
 	for k, v := range stats {
 		rep.CountN(k, v)
+	}
+	// worlds with directories the walker cannot read (c19err.go): mode 000, vanishing, path beyond PATH_MAX
+	ew := c19ErrWorld(cs, w)
+	if ew != nil {
+		rep.Count("err_world=" + ew.kind)
 	}
 	fsc := &c19FS{st: map[string]os.FileInfo{}, lst: map[string]os.FileInfo{}}
 	for _, run := range cs.Runs {
 		one := c19Case{cs.World, cs.Cwd, cs.Roots, []c19Run{run}, "hook"}
 		key, _ := json.Marshal(one)
 		arg := L(L(B(run.Opts[0]), B(run.Opts[1]), B(run.Opts[2]), B(run.Opts[3])), Strs(run.Skips), wire)
-		specV := c.Model.Call(1902, arg)
-		modelV := c.Model.Call(1901, arg)
-		spec := c19Sorted(c19ValStrs(specV))
-		modelOK := modelV.IsList && len(modelV.L) == 2 && modelV.L[0].I == 1
-		model := []string{}
-		if modelOK {
-			model = c19Sorted(c19ValStrs(modelV.L[1]))
+		var specV, modelV Val
+		var spec, model []string
+		modelOK := false
+		// per route, when they differ (a directory that vanishes does so in the in-process route only)
+		specOf := map[string][]string{}
+		modelOf := map[string][]string{}
+		modelOKOf := map[string]bool{}
+		modelVOf := map[string]Val{}
+		noModel := map[string]bool{}
+		unreadable := 0
+		if ew == nil {
+			specV = c.Model.Call(1902, arg)
+			modelV = c.Model.Call(1901, arg)
+			spec = c19Sorted(c19ValStrs(specV))
+			modelOK = modelV.IsList && len(modelV.L) == 2 && modelV.L[0].I == 1
+			model = []string{}
+			if modelOK {
+				model = c19Sorted(c19ValStrs(modelV.L[1]))
+			}
+			for _, via := range []string{"hook", "process"} {
+				specOf[via], modelOf[via], modelOKOf[via], modelVOf[via] = spec, model, modelOK, modelV
+			}
+		} else {
+			// the spec's listing of what can be SEEN (op 1908, spec/WalkErrSpec.v) and the model with fastwalk's error
+			// protocol (op 1907, model/WalkErrModel.v: items and readFiles' return value, which must be true)
+			bad := false
+			for _, via := range []string{"hook", "process"} {
+				if via == "process" && !(ew.vanish != nil && run.Opts[1]) {
+					specOf[via], modelOf[via], modelOKOf[via], modelVOf[via] = specOf["hook"], modelOf["hook"], modelOKOf["hook"], modelVOf["hook"]
+					noModel[via] = noModel["hook"]
+					continue
+				}
+				fwire, nun, ok := ew.flagged(cs, w, rootsV, via, run)
+				if !ok {
+					bad = true
+					break
+				}
+				if via == "hook" {
+					unreadable = nun
+				}
+				farg := L(arg.L[0], arg.L[1], fwire)
+				sv := c.Model.Call(1908, farg)
+				specOf[via] = c19Sorted(c19ValStrs(sv))
+				if ew.long {
+					// the extracted model reverses every path with the quadratic List.rev (filepath.Base, HasSuffix): paths of
+					// 4 KiB cost seconds per walk.  In these worlds the spec alone is evaluated (kind "spec"); the model with
+					// the error protocol is compared in the worlds with locked and vanishing directories.
+					noModel[via] = true
+					rep.Count("model_skipped(long paths)")
+					continue
+				}
+				mv := c.Model.Call(1907, farg)
+				modelVOf[via] = mv
+				modelOKOf[via] = mv.IsList && len(mv.L) == 3 && mv.L[0].I == 1 && mv.L[2].I == 1
+				modelOf[via] = []string{}
+				if modelOKOf[via] {
+					modelOf[via] = c19Sorted(c19ValStrs(mv.L[1]))
+				}
+			}
+			if bad {
+				rep.Disagreement(Disagreement{Kind: "corr", Name: "corr:C19.unfold (flagged tree differs from the spec unfolding)", Input: one})
+				continue
+			}
+			spec, model, modelOK, modelV = specOf["hook"], modelOf["hook"], modelOKOf["hook"], modelVOf["hook"]
+			rep.CountN("unreadable_dirs_met", unreadable)
 		}
 		impls := map[string][]string{}
+		returnedFalse := false
 		// bounded runs (see the header): the listing is finite, so is what a correct walker may deliver
 		limit := 2*len(spec) + 64
 		specBytes := 0
@@ -737,7 +878,11 @@ func c19Check(c *Ctx, pty *c19Pty, cs c19Case, seq int) {
 		if c19RunawaySeen > 0 {
 			first = time.Second
 		}
-		items, st := c19Hook(cs, w, run, limit, first)
+		hx := c19HookX{}
+		if ew != nil {
+			hx = ew.hookX(run)
+		}
+		items, st := c19Hook(cs, w, run, limit, first, hx)
 		rep.ImplTraces++
 		unconfirmed := false
 		if st.Deadline && !st.Over && st.Msg == "" {
@@ -746,7 +891,7 @@ func c19Check(c *Ctx, pty *c19Pty, cs c19Case, seq int) {
 				rep.Count("hook_deadline_after_runaway")
 			} else {
 				rep.Count("hook_deadline_retry")
-				items, st = c19Hook(cs, w, run, limit, c19Deadlines[1])
+				items, st = c19Hook(cs, w, run, limit, c19Deadlines[1], hx)
 			}
 		}
 		switch {
@@ -770,6 +915,11 @@ func c19Check(c *Ctx, pty *c19Pty, cs c19Case, seq int) {
 					Impl:   map[string]interface{}{"still_walking_after_s": c19Deadlines[1].Seconds(), "items_so_far": len(items), "some_items": c19Head(c19Sorted(items), 40)},
 					Expect: map[string]interface{}{"items": len(spec), "listing": c19Head(spec, 80)}})
 			}
+		case st.Msg == "readFiles returned false":
+			// the walk was given up (fastwalk.Walk returned an error): what it delivered is judged like any other
+			// listing first (walk_eq_listing below: the property's own words), then the return value is reported
+			returnedFalse = true
+			impls["hook"] = items
 		case st.Msg != "":
 			rep.Disagreement(Disagreement{Kind: "spec", Name: "no_crash(hook)", Input: one, Impl: st.Msg, Expect: "no panic / error"})
 		default:
@@ -780,7 +930,14 @@ func c19Check(c *Ctx, pty *c19Pty, cs c19Case, seq int) {
 		}
 		if !runaway && run.Proc && pty != nil && (run.Opts[0] || run.Opts[1]) {
 			one.Via = "process"
-			items, msg, over := c19Proc(c, pty, cs, w, run, 2*specBytes+(64<<10))
+			pspecBytes := 0
+			for _, s := range specOf["process"] {
+				pspecBytes += len(s) + 1
+			}
+			if pspecBytes > specBytes {
+				specBytes = pspecBytes
+			}
+			items, msg, over := c19Proc(c, pty, cs, w, run, 2*specBytes+(64<<10), ew != nil && ew.drop)
 			rep.ImplTraces++
 			rep.Count("via_process")
 			if over {
@@ -796,7 +953,7 @@ func c19Check(c *Ctx, pty *c19Pty, cs c19Case, seq int) {
 				impls["process"] = items
 			}
 		}
-		nontrivial := stats["dir"] > 0 && len(spec) > 0 && (len(run.Skips) > 0 || stats["symlink_dir"] > 0 || !run.Opts[3])
+		nontrivial := stats["dir"] > 0 && len(spec) > 0 && (len(run.Skips) > 0 || stats["symlink_dir"] > 0 || !run.Opts[3] || unreadable > 0)
 		rep.Eval(string(key), nontrivial)
 		for _, via := range []string{"hook", "process"} {
 			got, ok := impls[via]
@@ -805,6 +962,7 @@ func c19Check(c *Ctx, pty *c19Pty, cs c19Case, seq int) {
 			}
 			one.Via = via
 			got = c19Sorted(got)
+			spec, model, modelOK, modelV := specOf[via], modelOf[via], modelOKOf[via], modelVOf[via]
 			// (5a) the spec on the implementation's output
 			rep.SpecChecks++
 			if !c19Eq(got, spec) {
@@ -831,6 +989,11 @@ func c19Check(c *Ctx, pty *c19Pty, cs c19Case, seq int) {
 					}
 				}
 			}
+			// the file-system-level checks see the world as the walker did: without privileges when it had none
+			undrop := func() {}
+			if ew != nil && ew.drop && syscall.Seteuid(c19Nobody) == nil {
+				undrop = func() { syscall.Seteuid(0) }
+			}
 			// the trailing separator, judged by the file system itself (independent of the generated case)
 			{
 				for _, it := range got {
@@ -838,15 +1001,15 @@ func c19Check(c *Ctx, pty *c19Pty, cs c19Case, seq int) {
 					if !filepath.IsAbs(full) {
 						full = w + "/" + cs.Cwd + "/" + full
 					}
-					li, err := os.Lstat(full)
+					limode, err := c19StatMode(full, false) // os.Lstat, also beyond PATH_MAX
 					if err != nil {
 						rep.Disagreement(Disagreement{Kind: "spec", Name: "listed_path_exists(" + via + ")", Input: one, Impl: it, Expect: "an existing path"})
 						break
 					}
-					realDir := li.IsDir()
+					realDir := limode.IsDir()
 					linkDir := false
-					if li.Mode()&os.ModeSymlink != 0 {
-						if st, err := os.Stat(full); err == nil && st.IsDir() {
+					if limode&os.ModeSymlink != 0 {
+						if stmode, err := c19StatMode(full, true); err == nil && stmode.IsDir() {
 							linkDir = true
 						}
 					}
@@ -866,6 +1029,7 @@ func c19Check(c *Ctx, pty *c19Pty, cs c19Case, seq int) {
 			if name, it, exp := c19LinkChecks(fsc, w, cs, run, got); name != "" {
 				rep.Disagreement(Disagreement{Kind: "spec", Name: name + "(" + via + ")", Input: one, Impl: it, Expect: exp})
 			}
+			undrop()
 			if len(cs.Roots) == 1 {
 				for i := 1; i < len(got); i++ {
 					if got[i] == got[i-1] {
@@ -875,6 +1039,9 @@ func c19Check(c *Ctx, pty *c19Pty, cs c19Case, seq int) {
 				}
 			}
 			// (5b) implementation == model
+			if noModel[via] {
+				continue
+			}
 			if !modelOK || !c19Eq(got, model) {
 				exp := interface{}(model)
 				if !modelOK {
@@ -882,6 +1049,14 @@ func c19Check(c *Ctx, pty *c19Pty, cs c19Case, seq int) {
 				}
 				rep.Disagreement(Disagreement{Kind: "corr", Name: "corr:C19.read_files(" + via + ")", Input: one, Impl: got, Expect: exp})
 			}
+		}
+		if returnedFalse {
+			rep.Count("readFiles_returned_false")
+		}
+		// (each of these runs has been judged by walk_eq_listing already; a cap, so that they leave room for it in the report)
+		if returnedFalse && rep.Distribution["readFiles_returned_false"] <= 10 {
+			one.Via = "hook"
+			rep.Disagreement(Disagreement{Kind: "spec", Name: "no_crash(hook)", Input: one, Impl: "readFiles returned false", Expect: "no panic / error"})
 		}
 		rep.Count("opts=" + c19WalkerArg(run.Opts))
 		rep.Count(fmt.Sprintf("skips=%d", len(run.Skips)))
@@ -1220,7 +1395,8 @@ func c19TrimPaths(c *Ctx) {
 }
 
 func runC19(c *Ctx) {
-	c.Rep.Rule = "random directory worlds (walked tree depth<=4, empty dirs, hidden files/dirs, symlinks to files/dirs/ancestors/dangling/chains, link cycles on purpose in 2 of 5 worlds (self, parent, any ancestor up to the world directory above the root, the root, mutual pairs, chains ending at an ancestor, round trips through ext, two ancestor links side by side), relative and absolute link texts, names with blanks/newlines/backslashes/quotes); roots '.', relative, absolute, with ./ and trailing /, sub-directories, two roots; 4 option/skip combinations per world (skip entries: base names, paths, /suffixes, near misses), one of them also through the fzf process on a pty; non-trivial = at least one directory, a non-empty listing and (a skip list or a followed dir-symlink or hidden off); distinct by JSON of (world, roots, run)"
+	c.Rep.Rule = "random directory worlds (walked tree depth<=4, empty dirs, hidden files/dirs, symlinks to files/dirs/ancestors/dangling/chains, link cycles on purpose in 2 of 5 worlds (self, parent, any ancestor up to the world directory above the root, the root, mutual pairs, chains ending at an ancestor, round trips through ext, two ancestor links side by side), relative and absolute link texts, names with blanks/newlines/backslashes/quotes); roots '.', relative, absolute, with ./ and trailing /, sub-directories, two roots; 4 option/skip combinations per world (skip entries: base names, paths, /suffixes, near misses), one of them also through the fzf process on a pty; a second stream (1 per 5 of the first) of such worlds with ONE directory the walker cannot read worked in - mode 000 with an unprivileged walker (process started as uid 65534 / effective uid of the in-process walk, when the harness is root), a directory removed at the moment it is listed (in-process, worlds without links), a chain of long names whose path passes PATH_MAX - mostly with two roots or a root with siblings around the directory, expected = the spec's listing of the visible tree (op 1908) and readFiles returning true; non-trivial = at least one directory, a non-empty listing and (a skip list or a followed dir-symlink or hidden off or an unreadable directory on the way); distinct by JSON of (world, roots, run)"
+	c19SetupUnpriv(c)
 	pty, err := c19OpenPty()
 	if err != nil {
 		c.Rep.Extra["pty_error"] = err.Error()
@@ -1274,6 +1450,12 @@ func runC19(c *Ctx) {
 	n := c.N(300, 6000)
 	for i := 0; i < n; i++ {
 		c19Check(c, pty, c19Gen(c.Rng), seq)
+		seq++
+	}
+	// worlds with a directory the walker cannot read (c19err.go)
+	nerr := c.N(60, 1200)
+	for i := 0; i < nerr; i++ {
+		c19Check(c, pty, c19GenErr(c.Rng), seq)
 		seq++
 	}
 	// after the worlds, and with its own cap, so that these "corr" reports never crowd out a "spec" one
